@@ -18,3 +18,7 @@ Theorem C18_colours V es k order : (forall v c, In (v, c) order <-> In v V /\ c 
   (covering_clique V es order <-> colourable V es k).
 Proof. exact (C18_colors V es k order). Qed.
 Print Assumptions C18_gen. Print Assumptions C18_colours.
+
+(** with the identity as shuffle: 3 vertices, 2 undirected edges is feasible, 4 is refused *)
+Example C18_instance : gen_graph (fun l => l) 3 2 true = Some ((0, 1) :: (0, 2) :: nil) /\ gen_graph (fun l => l) 3 4 true = None.
+Proof. split; vm_compute; reflexivity. Qed.
